@@ -15,7 +15,7 @@ META = {
                     '<tag>) x right context (empty | 1 symbolic char) x lookAhead on/off',
     },
     'outside_claim': ['lines longer than the bound in the consistency part', 'code points >= 128 in symbolic context',
-                      'prefixes longer than one character', 'abbreviations outside the generated family'],
+                      'symbolic prefixes longer than one character (three concrete multi-character prefixes are explored)', 'abbreviations outside the generated family'],
 }
 
 CLOSERS_M = ')]}'
@@ -260,6 +260,26 @@ def mk_roundtrip_family(part, nparts, limit, left, right, look_ahead):
                           'consume_attribute_with_unquoted_value', 'consume_quoted']}
 
 
+def mk_prefix2(pfx, n):
+    """multi-character prefix, symbolic line"""
+    made = mk_consistency(0, 0, 128, 'markup', True, False)
+    check = made['check']
+
+    def h(line: str, pos: int):
+        if len(line) > n or not all_ascii(line):
+            return 'skip'
+        return check(line, pos, pfx)
+
+    def twin(line: str, pos: int):
+        if len(line) > n or not all_ascii(line):
+            return 'skip'
+        from emmet.extract_abbreviation import extract_abbreviation
+        return 'twin' if extract_abbreviation(line, pos, {'prefix': pfx}) is not None else True
+    return {'fn': h, 'twin': twin, 'witnesses': [{'line': (pfx + 'a')[:n], 'pos': n}, {'line': (pfx[1:] + 'ab')[:n], 'pos': n}],
+            'assumptions': ['prefix %r; line any ASCII string of <=%d characters; pos any integer' % (pfx, n)],
+            'functions': ['extract_abbreviation.get_start_offset', 'consume_list', 'consume_pair']}
+
+
 OPEN = ['a[b="', 'p{x', '(a', 'a[b=\'c', 'ul>(li[t={x', 'a[b]', 'q{{y', '']
 
 
@@ -313,6 +333,9 @@ def jobs(tier):
             out.append(Job('C11-a/lookahead/%s/open%d' % (typ, oi), 'vf.props.c11:mk_lookahead',
                            dict(oi=oi, n=3 if q else 4, typ=typ), shape='H', bound='right context <=%d chars' % (3 if q else 4),
                            budget=900 if q else 3000, weight=3000))
+    for pfx in ('>>', '<%', '!!!'):
+        out.append(Job('C11-a/prefix2/%s' % pfx, 'vf.props.c11:mk_prefix2', dict(pfx=pfx, n=3 if q else 4), shape='W',
+                       bound='line <=%d chars' % (3 if q else 4), budget=1500 if q else 6000, weight=5000))
     limit = 48 if q else 150
     nparts = 6 if q else 14
     if q:
